@@ -41,7 +41,8 @@ Print Assumptions c56_set_order_irrelevant.
    table after the executemany is the fold of upsert_one, the returned rows are the affected rows (up to
    the order inside one multi-row statement), errors coincide.  Guards: no bound literal in index_where
    under executemany on SQLite (refuted below), and a batched execution has no per-row bindparam() outside
-   the VALUES list (refuted below for WHERE on SQLite and for SET with an embedded counter on PostgreSQL) *)
+   the VALUES list - needed only with an embedded VALUES counter (refuted below for PostgreSQL); without it the
+   guard reduces to "no bindparam() in index_where", see c56_upsert_eq_insert_or_update_model below *)
 Theorem c56_upsert_eq_insert_or_update_model_guarded :
   forall shuffle, (forall l, Permutation (shuffle l) l) ->
   forall sqlite embed cols ixs sa returning sorted page t ps cls,
@@ -52,6 +53,20 @@ Theorem c56_upsert_eq_insert_or_update_model_guarded :
               (upsert_spec ixs cls t ps).
 Proof. exact exec_impl_equiv. Qed.
 Print Assumptions c56_upsert_eq_insert_or_update_model_guarded.
+
+(* MAIN without embedded counter (always on SQLite; since fixes e3b606f and 5319231 a bindparam() in DO UPDATE ..
+   WHERE, or one with a default value that the parameter sets supply, forces row-at-a-time like one in SET):
+   the batching guard is gone, only "no bindparam() inside index_where" (an assumption of the model) is left *)
+Theorem c56_upsert_eq_insert_or_update_model :
+  forall shuffle, (forall l, Permutation (shuffle l) l) ->
+  forall sqlite cols ixs sa returning sorted page t ps cls,
+    wf_cols cols -> chain_ok sa = true -> spec_of cols sa = Some cls -> Forall sets_nodup cls ->
+    sqlite && existsb uses_literal_execute sa && Nat.ltb 1 (length ps) = false ->
+    existsb has_iw_par sa = false ->
+    res_equiv (exec_impl shuffle sqlite false cols ixs sa returning sorted page t ps)
+              (upsert_spec ixs cls t ps).
+Proof. exact exec_impl_equiv_no_embed. Qed.
+Print Assumptions c56_upsert_eq_insert_or_update_model.
 
 (* returning_rows_in_param_order: with sort_by_parameter_order (no embedded counter: always on SQLite) the
    result is EXACTLY the model's - rows of the affected parameter sets in parameter order, none for a
@@ -83,15 +98,15 @@ Theorem c56_targetless_clause_must_be_last :
 Proof. exact chain_error. Qed.
 Print Assumptions c56_targetless_clause_must_be_last.
 
-(* REFUTED (reproduced on SQLite, KNOWN-FINDING C56-where-bindparam-batched): bindparam() inside DO UPDATE
-   .. WHERE, RETURNING without sort_by_parameter_order: all guards but batch_safe hold, the table differs *)
-Theorem c56_where_bindparam_batched_refuted :
-  exists cls, spec_of w_cols wa_sa = Some cls /\ Forall sets_nodup cls /\ chain_ok wa_sa = true /\
-    existsb uses_literal_execute wa_sa = false /\
-    ~ res_equiv (exec_impl idf true false w_cols w_ixs wa_sa true false 1000 wa_t wa_ps)
-                (upsert_spec w_ixs cls wa_t wa_ps).
-Proof. exact where_bindparam_batched_refuted. Qed.
-Print Assumptions c56_where_bindparam_batched_refuted.
+(* formerly refuted (finding C56-where-bindparam-batched, fixed by e3b606f): bindparam() inside DO UPDATE ..
+   WHERE, RETURNING without sort_by_parameter_order is now executed row at a time and agrees with the model *)
+Example c56_ex_where_bindparam_unsorted :
+  exists cls, spec_of w_cols wa_sa = Some cls /\
+    batched false true false (length wa_ps) wa_sa = false /\
+    exec_impl idf true false w_cols w_ixs wa_sa true false 1000 wa_t wa_ps = upsert_spec w_ixs cls wa_t wa_ps /\
+    upsert_spec w_ixs cls wa_t wa_ps =
+      Ok ([[Some 1; Some 0; Some 1; Some 5]; [Some 2; Some 1; Some 2; Some 0]], [[Some 1; Some 0; Some 1; Some 5]])%Z.
+Proof. exact where_bindparam_unsorted_ok. Qed.
 
 (* REFUTED (reproduced on SQLite, KNOWN-FINDING C56-sqlite-index-where-executemany) *)
 Theorem c56_index_where_literal_executemany_refuted :
